@@ -806,6 +806,43 @@ Definition new_path (S : list snode) (t : list dnode) (path value : bytes) : nre
   end.
 
 (* ------------------------------------------------------------------------------------------- *)
+(* lyd_change_term(node, value)                                                                  *)
+(* ------------------------------------------------------------------------------------------- *)
+(* _lyd_change_term(): the new text is stored through the type of the term node (its canonical value replaces the old one)
+   and, for a key or a (leaf-)list instance, the node and its parents are hashed again: in this model the identity of an
+   instance is a function of the current values, there is no separate hash that could go stale. NOT modelled: the move of
+   the instance of a system-ordered list / leaf-list to its sorted place (the sibling order stays as it is here). *)
+Fixpoint set_val (f : list dnode) (p : list nat) (cw : bytes) {struct p} : list dnode :=
+  match p with
+  | [] => f
+  | i :: p' =>
+      match nth_error f i with
+      | None => f
+      | Some x =>
+          let x' := match p' with
+                    | [] => DN (d_m x) (d_n x) (d_k x) cw (d_ch x)
+                    | _ => DN (d_m x) (d_n x) (d_k x) (d_v x) (set_val (d_ch x) p' cw)
+                    end in
+          firstn i f ++ x' :: skipn (S i) f
+      end
+  end.
+
+(* None: no such node, not a term node, or the type rejects the text (LY_EVALID, nothing changed) *)
+Definition change_term (t : list dnode) (p : list nat) (w : bytes) : option (list dnode) :=
+  match node_at t p with
+  | Some x =>
+      match d_k x with
+      | KLeaf _ ty | KLeafList _ ty =>
+          match canon ty w with
+          | Some cw => Some (set_val t p cw)
+          | None => None
+          end
+      | _ => None
+      end
+  | None => None
+  end.
+
+(* ------------------------------------------------------------------------------------------- *)
 (* well-formed schema and data (what lys_compile and the data parsers guarantee)                 *)
 (* ------------------------------------------------------------------------------------------- *)
 (* every key of a list with keys belongs to the module of the list, is found by its name, and key names differ *)
